@@ -302,6 +302,9 @@ def forms_of(fu):
 			labels = tuple(l for l, c in atoms)
 			cs = [c for l, c in atoms]
 			if op in ('Eq', 'Ne'):
+				if len(labels) == 1 and re.search(r'BitAnd \+1\)$|^\(\+1 BitAnd |Rem \+2\)$', labels[0]):
+					# a two-valued atom (`t & 1`, `t % 2`): `== 0`, `!= 1`, `!= 0` with the branches swapped are one test; the form carries nothing to pin
+					continue
 				if cs[0] < 0:
 					cs = [-c for c in cs]; K = -K
 				out.setdefault((('eq',) + labels), set()).add((tuple(cs), K))
